@@ -98,6 +98,7 @@ static void build_items(int deep)
 	/* ---- SEND items ---- */
 	for (i = 0; i < sizeof lens_q / sizeof lens_q[0]; i++) {
 		int nc_text = deep ? 2 : 1, nc_bin = deep ? 3 : 1;
+		if (lens_q[i] > 70000) nc_text = nc_bin = 1;    /* the 1 MiB payload in one content class only */
 		for (c = 0; c < nc_text; c++) { data[ndata].op = OP_TEXT; data[ndata].arg = lens_q[i]; data[ndata++].content = c; }
 		for (c = 0; c < nc_bin; c++) { data[ndata].op = OP_BIN; data[ndata].arg = lens_q[i]; data[ndata++].content = c; }
 	}
